@@ -297,6 +297,20 @@ class CallListerVisitor(ast.NodeVisitor):
             self.namespace[node.rest] = Unknown(node)
         self.generic_visit(node)
 
+    def visit_ListComp(self, node):
+        # the targets are bound before the element is evaluated
+        for comp in node.generators:
+            self.visit(comp.iter)
+            self.visit(comp.target)
+            for cond in comp.ifs:
+                self.visit(cond)
+        for field in ('key', 'value', 'elt'):
+            element = getattr(node, field, None)
+            if element is not None:
+                self.visit(element)
+
+    visit_SetComp = visit_DictComp = visit_GeneratorExp = visit_ListComp
+
     def visit_Nonlocal(self, node):
         for name in node.names:
             self.namespace.add_nonlocal(name)
